@@ -258,6 +258,9 @@ Example fix_example :
   drop_obs (q_drop_fix (clear_trace (set_sched w9 [])) false) = Some (0%Z, Some []).
 Proof. vm_compute. repeat split. Qed.
 
+Lemma sched_trace_core w l : same_core w (clear_trace (set_sched w l)).
+Proof. unfold same_core. cbn [clear_trace set_sched w_h w_val w_fresh w_qa w_qb]. auto. Qed.
+
 (* the example is an instance of the theorems: the world of the example satisfies their hypotheses *)
 Lemma w9_inv l : exists X, QInv (clear_trace (set_sched w9 l)) X /\ failed (clear_trace (set_sched w9 l)) = false /\
   X = ([3; 4; 5; 6; 7; 8; 9; 10; 11], []).
@@ -267,9 +270,9 @@ Proof.
   assert (Hw : w' = w9) by (unfold w9; rewrite E; reflexivity). subst w'.
   pose proof (ring_of_spec w9 X false I) as Ha. pose proof (ring_of_spec w9 X true I) as Hb.
   exists X. split; [|split; [reflexivity|]].
-  - eapply same_core_QInv; [|exact I]. unfold same_core. repeat split; reflexivity.
+  - eapply same_core_QInv; [|exact I]. apply sched_trace_core.
   - destruct X as [xa xb]. cbn [sel fst snd] in Ha, Hb.
     assert (Ea : ring_of (w_h w9) (qaddr false) (fuel_of w9) = Some [3; 4; 5; 6; 7; 8; 9; 10; 11]) by (vm_compute; reflexivity).
     assert (Eb : ring_of (w_h w9) (qaddr true) (fuel_of w9) = Some []) by (vm_compute; reflexivity).
-    congruence.
+    rewrite Ea in Ha. rewrite Eb in Hb. inversion Ha. inversion Hb. reflexivity.
 Qed.
